@@ -17,7 +17,14 @@ pub fn perr(e: &ParserError) -> &'static str {
 pub fn run(case: &Value) -> Value {
     let bytes = unhex(case["hex"].as_str().unwrap());
     match parse_lcov(bytes, case["branch"].as_bool().unwrap()) {
-        Ok(rs) => json!({"ok": results_to(&rs)}),
+        Ok(rs) => {
+            // a branch vector of millions of slots (sized by a BRDA branch number in the input) is not serialised
+            let m = rs.iter().flat_map(|(_, c)| c.branches.values().map(|v| v.len())).max().unwrap_or(0);
+            if m > (1 << 20) {
+                return json!({ "huge_branch_vector": m });
+            }
+            json!({"ok": results_to(&rs)})
+        }
         Err(e) => json!({"err": perr(&e)}),
     }
 }
